@@ -60,6 +60,11 @@ def cli():
     return prof, rating
 
 
+def afmformats_find(folder):
+    import afmformats
+    return afmformats.find_data(folder, modality="force-distance")
+
+
 def model_keys():
     from nanite import model
     return sorted(model.models_available.keys())
@@ -285,7 +290,11 @@ class ProfileEngine:
                                        "0,1", "x", "1,,2"]))
             seq.append(rng.choice(
                 ["1,2,4", "1,4", "1,2,4,5", "1,4,2", "1,4,3,2", "1,2,4,6",
-                 "1", "2,1,4", "1,4,3,5,6"]))
+                 "1", "2,1,4", "1,4,3,5,6"]
+                # selections that satisfy every prerequisite but do not
+                # compute the tip position (the batch fit needs that column
+                # unless the data bring it along)
+                + (["2", "2,6"] if rng.random() < 0.25 else [])))
             s["preprocessing"] = seq
         if rng.random() < 0.6:
             # sorted keys: 1 hertz_cone 2 hertz_para 3 hertz_pyr3s
@@ -778,6 +787,26 @@ class ProfileEngine:
                 rating.fit_perform(folder, outdir)
         except _caught() as e:
             feats["exc"] = type(e).__name__
+            feats["missing_tip_position"] = (
+                "compute_tip_position" not in ref["preprocessing"]
+                and "tip position" in str(e))
+            # Is it the profile that is rejected, or one particular curve
+            # on which a step fails (e.g. height smoothing that does not
+            # converge)? Apply the profile to a benign canonical curve, and
+            # recompute the folder's curves independently.
+            canon_exc = self.apply_profile(curves.make_curve(
+                {"kind": "synthetic", "model": "hertz_para", "n": 700,
+                 "noise": 0.01, "seed": 7}), ref, explicit)
+            if canon_exc is None:
+                data_exc = None
+                for pp in afmformats_find(folder):
+                    for idnt in IndentationGroup(pp):
+                        data_exc = data_exc or self.apply_profile(
+                            idnt, ref, explicit)
+                if data_exc is not None and type(data_exc) is type(e):
+                    probes["batch fit stopped by a curve-specific "
+                           "failure (profile fine on canonical curve)"] += 1
+                    return None
             return make_violation(
                 self.prop, "F5", f"fit_perform-raises:{type(e).__name__}",
                 feats,
@@ -837,6 +866,25 @@ class ProfileEngine:
                 f"plots.tif has {npages} pages for {len(expected)} curves",
                 i)
         probes["statistics rows compared"] += len(expected)
+        return None
+
+    def apply_profile(self, idnt, ref, explicit):
+        """Preprocess and fit one curve the way the profile says; returns
+        the exception or None."""
+        try:
+            with warnings.catch_warnings():
+                warnings.simplefilter("ignore")
+                idnt.apply_preprocessing(
+                    copy.deepcopy(ref["preprocessing"]),
+                    copy.deepcopy(ref["preprocessing_options"]))
+                idnt.fit_model(
+                    model_key=ref["model_key"],
+                    params_initial=self.expected_params(ref, explicit),
+                    range_type=ref["range_type"],
+                    range_x=copy.deepcopy(ref["range_x"]),
+                    segment=ref["segment"], weight_cp=ref["weight_cp"])
+        except _caught() as e:
+            return e
         return None
 
     def simplify_op(self, op):
